@@ -157,6 +157,16 @@ CLAIMED["C17"] = dict(
     note="Trusted: the reference transforms of vp/props/c17.py (written from the docstrings); lookups respect the documented precondition "
          "(injective, not onto labels of unmapped rows); nets without pumps / compressors for the physics part.",
     ref="DESIGN.md 4/C17")
+CLAIMED["C18"] = dict(
+    technique="property-based testing (Hypothesis) of create_nxgraph / graph searches against a reference graph model, own Dijkstra and the solver's NaN pattern",
+    text="Exploration: generated nets with consistent outage patterns (pi and ju valves, parallel branches, several islands, circulation pumps) "
+         "and generated include_* / respect_status_* / multi / respect_status_junctions options: node set, one edge per included "
+         "junction-junction branch with the right ends and weight, no edge for junction-pipe valves (closed ones remove their pipe), connected "
+         "components vs a reference model, the three distance functions vs an own Dijkstra over pipe lengths, and unsupplied_junctions + "
+         "out-of-service junctions vs the junctions without pressure result of a real pipeflow.",
+    note="Trusted: reference graph built from the recipe; supply clause only asserted where the documented preconditions hold (flow "
+         "controllers / heat consumers no bridges, pressure-controller direction irrelevant).",
+    ref="DESIGN.md 4/C18")
 NOT_YET = {}
 
 def main():
